@@ -127,7 +127,17 @@ func (e *Engine) callFn(st *State, fr *Frame, fn *ssa.Function, args []Val, clo 
 			return
 		}
 	}
-	if c := e.contractFor(fn); c != nil && c.Opts["inline"] != "true" && (fn != e.cur.fn || true) {
+	// "opt noinline F G ..." on the function under verification: use the contracts of these callees at its call sites
+	// even though they are marked inline (keeps the number of paths of a large caller manageable)
+	forceContract := false
+	if e.cur != nil && e.cur.c != nil {
+		for _, n := range strings.Fields(e.cur.c.Opts["noinline"]) {
+			if n == fn.Name() {
+				forceContract = true
+			}
+		}
+	}
+	if c := e.contractFor(fn); c != nil && (c.Opts["inline"] != "true" || forceContract) && (fn != e.cur.fn || true) {
 		if c.Kind == "func" || c.Kind == "trusted" {
 			res := e.applyContract(st, fr, fn, c, args, in)
 			e.bindResult(fr, bind, res)
